@@ -30,14 +30,13 @@ Definition facts_ok (f : facts) : bool :=
   f_alloc_shared f && f_reset_excl f && f_iter_excl f && negb (f_sync f) && negb (f_coll_send f).
 
 (* the auto-trait questions a client can ask, and what the facts answer *)
-Inductive tquery := QBumpSend | QBumpSync | QRefBumpSend | QCollSend | QCollSync.
+Inductive tquery := QBumpSend | QBumpSync | QRefBumpSend | QCollSend.
 Definition trait_holds (f : facts) (q : tquery) : bool :=
   match q with
   | QBumpSend => f_send f
   | QBumpSync => f_sync f
   | QRefBumpSend => f_sync f          (* &T: Send iff T: Sync *)
-  | QCollSend => f_coll_send f || f_sync f
-  | QCollSync => f_sync f
+  | QCollSend => f_coll_send f        (* the buffer pointer is a NonNull: never Send by itself *)
   end.
 
 (* ---------- what really happens ---------- *)
@@ -110,7 +109,9 @@ Fixpoint accepts (f : facts) (c : st) (p : list stmt) : bool :=
           s_arena c && (negb (f_reset_excl f) || (no_live_refs f c rest && no_live_iters f c rest)) &&
           accepts f c rest
       | SIterBegin i =>
-          s_arena c && no_live_refs f c rest && no_live_iters f c rest &&
+          (* an earlier iterator of the same name is shadowed: it can never be used again *)
+          s_arena c && no_live_refs f c rest &&
+          no_live_iters f (mkSt (s_refs c) (filter (fun x => negb (Nat.eqb x i)) (s_iters c)) true) rest &&
           accepts f (mkSt (s_refs c) (i :: s_iters c) true) rest
       | SIterUse i => memb i (s_iters c) && accepts f c rest
       | SDropArena | SMoveArena =>
@@ -121,8 +122,9 @@ Fixpoint accepts (f : facts) (c : st) (p : list stmt) : bool :=
           s_arena c && f_send f && no_live_refs f c rest && no_live_iters f c rest &&
           accepts f (mkSt (s_refs c) (s_iters c) false) rest
       | SSpawnRef r =>
-          s_arena c && memb r (s_refs c) && (f_coll_send f || f_sync f) && negb (uses_ref r rest) &&
-          no_live_iters f c rest && accepts f c rest
+          s_arena c && memb r (s_refs c) && f_coll_send f && negb (uses_ref r rest) &&
+          no_live_iters f c rest &&
+          accepts f (mkSt (filter (fun x => negb (Nat.eqb x r)) (s_refs c)) (s_iters c) true) rest
       end
   end.
 
@@ -137,6 +139,14 @@ Lemma forallb_memb (P : nat -> bool) l x : forallb P l = true -> memb x l = true
 Proof.
   intros H M. unfold memb in M. apply existsb_exists in M. destruct M as (y & Hy & E).
   apply Nat.eqb_eq in E. subst y. rewrite forallb_forall in H. apply H. exact Hy.
+Qed.
+
+Lemma memb_filter_neq x y l : Nat.eqb x y = false -> memb x l = true ->
+  memb x (filter (fun z => negb (Nat.eqb z y)) l) = true.
+Proof.
+  intros E M. unfold memb in *. apply existsb_exists in M. destruct M as (z & Hz & Ez).
+  apply Nat.eqb_eq in Ez. subst z. apply existsb_exists. exists x. split; [|apply Nat.eqb_refl].
+  apply filter_In. split; [exact Hz|]. rewrite E. reflexivity.
 Qed.
 
 Lemma memb_cons x y l : memb x (y :: l) = Nat.eqb x y || memb x l.
@@ -180,8 +190,8 @@ Proof.
     + intros r0 M U. exfalso. unfold no_live_refs in L1. rewrite Fa in L1. cbn [negb orb] in L1.
       pose proof (forallb_memb _ _ _ L1 M) as Q. cbv beta in Q. rewrite U in Q. discriminate.
     + intros i0 M U. rewrite memb_cons in *. destruct (Nat.eqb i0 i) eqn:E; [reflexivity|]. cbn [orb] in *.
-      exfalso. unfold no_live_iters in L2. rewrite Fi in L2. cbn [negb orb] in L2.
-      pose proof (forallb_memb _ _ _ L2 M) as Q. cbv beta in Q. rewrite U in Q. discriminate.
+      exfalso. unfold no_live_iters in L2. rewrite Fi in L2. cbn [negb orb s_iters] in L2.
+      pose proof (forallb_memb _ _ _ L2 (memb_filter_neq _ _ _ E M)) as Q. cbv beta in Q. rewrite U in Q. discriminate.
   - (* SIterUse *)
     rewrite andb_true_iff in Acc. destruct Acc as [A1 A2].
     assert (V : memb i (d_iters d) = true).
@@ -216,7 +226,7 @@ Proof.
     + intros i M U. exfalso. unfold no_live_iters in L2. rewrite Fi in L2. cbn [negb orb] in L2.
       pose proof (forallb_memb _ _ _ L2 M) as Q. cbv beta in Q. rewrite U in Q. discriminate.
   - (* SSpawnRef: never accepted, neither Vec/String nor &Bump is Send *)
-    rewrite Fs, Fc in Acc. cbn [orb] in Acc. rewrite !andb_false_r in Acc. cbn in Acc. discriminate.
+    rewrite Fc in Acc. rewrite !andb_false_r in Acc. cbn in Acc. discriminate.
 Qed.
 
 Lemma agree0 p : agree st0 dyn0 p.
